@@ -135,7 +135,7 @@ def parse_out(text):
             for x in parts[2:]:
                 if "=" in x:
                     a, b = x.split("=", 1)
-                    kv[a] = b
+                    kv[a] = b.lower() if b.startswith("s:") else b     # Fortran prints hex digits upper case
             out[int(parts[1])] = kv
     return out
 
@@ -169,7 +169,7 @@ def compare_call(lib, k, call, trace, outkv, serials, conv):
         args2 = dict(call["args"])
         for p in g["params"]:
             if p["name"] in args2:
-                args2[p["name"]] = conv["in"](p, args2[p["name"]])
+                args2[p["name"]] = conv["in"](call, p, args2[p["name"]])
         call2 = dict(call, args=args2)
         g, exp = expected_call(lib, call2, serials)
     recs = [t for t in trace.get(k, []) if t[0] == "RECV"]
@@ -204,7 +204,7 @@ def compare_call(lib, k, call, trace, outkv, serials, conv):
             p = g["ret"]
         else:
             p = next(p for p in g["params"] if p["name"] == n)
-        want2 = conv["out"](p, want) if conv.get("out") else want
+        want2 = conv["out"](call, p, want) if conv.get("out") else want
         if want2 is None:
             continue
         got = outkv.get(n)
